@@ -33,8 +33,14 @@ def observe(progs, cases, timeout=3000, hang=False, race=False, env=None):
     work = vf.scratch("verif-lang-")
     path = os.path.join(work, "cases.ndjson")
     items = []
+    skipped = {}
     for p in progs:
         c = cases[p["id"]]
+        if c["out"]["kind"] == "toobig":
+            # grows a value beyond any bound (doubling in a loop): not run - the engines put no bound on the memory of
+            # an evaluation and the machine would be the one to find out (see the C04 memory probe)
+            skipped[p["id"]] = {"id": p["id"], "skipped": "toobig"}
+            continue
         kind = c["out"]["kind"] + ("-" + c["out"]["class"] if c["out"].get("class") == "limit" else "")
         if c["out"]["kind"] == "unrep":
             kind = "error-limit"     # outcome unknown to the model: may not terminate either
@@ -48,9 +54,10 @@ def observe(progs, cases, timeout=3000, hang=False, race=False, env=None):
     observe.last_output = txt
     res = vf.read_ndjson(out)
     summ = [x for x in res if x.get("summary")]
-    if not summ or summ[0]["cases"] != len(progs):
+    if not summ or summ[0]["cases"] != len(items):
         raise vf.InfraError("language driver failed rc=%s\n%s" % (rc, txt[-3000:]))
     obs = {x["id"]: x for x in res if not x.get("summary")}
+    obs.update(skipped)
     return obs, (vf.read_ndjson(hout) if hang else [])
 
 
